@@ -301,4 +301,107 @@ theorem go_hashToIndex (h : BitVec 64) (k : Nat) (hk : k ≤ 31) :
       _ = 2 ^ 32 := by rw [← Nat.pow_add]; congr 1; omega
   rw [Nat.mod_eq_of_lt hlt]
   exact rev_shifted k _ (by omega) hc
+theorem go_isPowerOfTwo (n : BitVec 32) : Go.isPowerOfTwo n = true ↔ ∃ k, n.toNat = 2 ^ k := by
+  unfold Go.isPowerOfTwo
+  have hlt := n.isLt
+  rw [Bool.and_eq_true, beq_iff_eq, BitVec.ult, decide_eq_true_iff]
+  have key := @Nat.ne_zero_and_sub_one_eq_zero_iff_isPowerOfTwo n.toNat
+  simp only [BitVec.toNat_ofNat, Nat.zero_mod]
+  constructor
+  · rintro ⟨h1, h2⟩
+    have : n.toNat &&& (n.toNat - 1) = 0 := by
+      have := congrArg BitVec.toNat h1
+      simp only [BitVec.toNat_and, BitVec.toNat_sub, BitVec.toNat_ofNat] at this
+      rw [show (2 ^ 32 - 1 % 2 ^ 32 + n.toNat) % 2 ^ 32 = n.toNat - 1 by omega] at this
+      simpa using this
+    exact key.1 ⟨by omega, this⟩
+  · intro h
+    have ⟨h0, h1⟩ := key.2 h
+    refine ⟨?_, by omega⟩
+    apply BitVec.eq_of_toNat_eq
+    simp only [BitVec.toNat_and, BitVec.toNat_sub, BitVec.toNat_ofNat]
+    rw [show (2 ^ 32 - 1 % 2 ^ 32 + n.toNat) % 2 ^ 32 = n.toNat - 1 by omega]
+    simpa using h1
+
+open BitVec in
+theorem go_signExtend_eq (w : Nat) (hw1 : 1 ≤ w) (hw : w ≤ 64) (u : Nat) (hu : u < 2 ^ w) :
+    Go.signExtend (BitVec.ofNat 64 u) (BitVec.ofNat 64 w) = (BitVec.ofNat w u).signExtend 64 := by
+  unfold Go.signExtend
+  have hsh : (BitVec.ofNat 64 w - 1#64).toNat = w - 1 := by
+    simp only [BitVec.toNat_sub, BitVec.toNat_ofNat]; omega
+  have hsb : (1#64 <<< (w - 1)) = BitVec.twoPow 64 (w - 1) := by
+    rw [BitVec.twoPow_eq]
+  have hp : 2 ^ (w - 1) < 2 ^ 64 := Nat.pow_lt_pow_right (by omega) (by omega)
+  have hmask : (BitVec.twoPow 64 (w - 1) - 1#64) = BitVec.ofNat 64 (2 ^ (w - 1) - 1) := by
+    apply BitVec.eq_of_toNat_eq
+    have := Nat.two_pow_pos (w - 1)
+    simp only [BitVec.toNat_sub, BitVec.toNat_twoPow, BitVec.toNat_ofNat]
+    rw [Nat.mod_eq_of_lt hp]; omega
+  have hhigh : ∀ i, w ≤ i → u.testBit i = false := fun i hi =>
+    Nat.testBit_lt_two_pow (Nat.lt_of_lt_of_le hu (Nat.pow_le_pow_right (by omega) hi))
+  have hcond : BitVec.ult 0#64 (BitVec.ofNat 64 u &&& BitVec.twoPow 64 (w - 1)) = u.testBit (w - 1) := by
+    have hnat : (0 < u &&& 2 ^ (w - 1)) ↔ u.testBit (w - 1) = true := by
+      constructor
+      · intro h
+        false_or_by_contra
+        rename_i hb
+        have : u &&& 2 ^ (w - 1) = 0 := by
+          apply Nat.eq_of_testBit_eq
+          intro i
+          simp only [Nat.testBit_and, Nat.testBit_two_pow, Nat.zero_testBit]
+          by_cases hij : w - 1 = i
+          · subst hij; simp at hb; simp [hb]
+          · simp [hij]
+        omega
+      · intro hb
+        have : (u &&& 2 ^ (w - 1)).testBit (w - 1) = true := by
+          simp [Nat.testBit_and, Nat.testBit_two_pow, hb]
+        have := Nat.ge_two_pow_of_testBit this
+        have := Nat.two_pow_pos (w - 1)
+        omega
+    simp only [BitVec.ult, BitVec.toNat_ofNat, BitVec.toNat_and, BitVec.toNat_twoPow, Nat.zero_mod]
+    rw [Nat.mod_eq_of_lt hp, Nat.mod_eq_of_lt (Nat.lt_of_lt_of_le hu (Nat.pow_le_pow_right (by omega) hw))]
+    by_cases hb : u.testBit (w - 1) = true
+    · simp [hb, hnat.2 hb]
+    · have : ¬ (0 < u &&& 2 ^ (w - 1)) := fun h => hb (hnat.1 h)
+      simp at hb; simp [hb]; omega
+  simp only [hsh, hsb, hmask, hcond]
+  apply BitVec.eq_of_getLsbD_eq
+  intro i hi
+  rw [BitVec.getLsbD_signExtend, BitVec.msb_eq_getLsbD_last]
+  simp only [BitVec.getLsbD_ofNat]
+  by_cases hb : u.testBit (w - 1) = true
+  · simp only [hb, if_true, BitVec.getLsbD_or, BitVec.getLsbD_not, BitVec.getLsbD_ofNat, Nat.testBit_two_pow_sub_one]
+    by_cases h1 : i < w
+    · by_cases h2 : i < w - 1
+      · simp [hi, h1, h2]
+      · have : i = w - 1 := by omega
+        subst this; simp [hi, h1, hb]
+    · have := hhigh i (by omega)
+      have h3 : ¬ i < w - 1 := by omega
+      have h4 : w - 1 < w := by omega
+      simp [hi, h1, this, h3, h4]
+  · simp only [hb]
+    have hg : (BitVec.ofNat 64 u)[i] = u.testBit i := by
+      rw [← BitVec.getLsbD_eq_getElem, BitVec.getLsbD_ofNat]; simp [hi]
+    by_cases h1 : i < w
+    · simp [hi, h1, hg]
+    · have := hhigh i (by omega)
+      simp at hb
+      simp [hi, h1, this, hb, hg]
+
+/-- `signExtend(value, bits)` on a field value of that width is the two's-complement reading of the field -/
+theorem go_signExtend (w : Nat) (hw1 : 1 ≤ w) (hw : w ≤ 64) (u : Nat) (hu : u < 2 ^ w) :
+    (Go.signExtend (BitVec.ofNat 64 u) (BitVec.ofNat 64 w)).toInt = toSigned u w := by
+  rw [go_signExtend_eq w hw1 hw u hu, BitVec.toInt_signExtend_of_le hw, BitVec.toInt_eq_toNat_cond]
+  simp only [BitVec.toNat_ofNat, Nat.mod_eq_of_lt hu]
+  unfold toSigned
+  have : 2 ^ w = 2 * 2 ^ (w - 1) := by rw [← Nat.pow_succ']; congr 1; omega
+  by_cases h : 2 * u < 2 ^ w
+  · have : ¬ (u ≥ 2 ^ (w - 1)) := by omega
+    simp [h, this]
+  · have h2 : u ≥ 2 ^ (w - 1) := by omega
+    have h3 : w > 0 := by omega
+    simp [h, h2, h3]
+
 end RedisEmu
